@@ -174,10 +174,20 @@ def capture_vars(closure_node):
     return {i: nt for i, nt in used.items() if i not in bound}
 
 
+class RecInterp(hirai.Interp):
+    """records which workspace functions the table extraction interpreted (helpers the lexer closure calls)"""
+    inlined = None
+
+    def _inline(self, f, args, st):
+        if self.inlined is not None:
+            self.inlined.add(f["key"])
+        return super()._inline(f, args, st)
+
+
 def extract(F, fn_key="deb822_lossless::lex::lex_"):
     """returns dict with table, obligations, initial modes"""
     f = F.fn(fn_key)
-    res = {"cells": [], "problems": [], "modes": [], "inits": {}}
+    res = {"cells": [], "problems": [], "modes": [], "inits": {}, "inlined": set()}
     if f is None:
         res["problems"].append(("anchor", "lex_ not found"))
         return res
@@ -226,7 +236,8 @@ def extract(F, fn_key="deb822_lossless::lex::lex_"):
         for ch in CHARS + [None]:
             mod = LexMod(F)
             mod.cur_char = ch
-            I = hirai.Interp(F, mod)
+            I = RecInterp(F, mod)
+            I.inlined = res["inlined"]
             I.closures = base_I.closures
             st = base_state.copy()
             for i, v in zip(mode_ids, m):
